@@ -276,6 +276,8 @@ class CEmitter:
             return out
         if k == "opt":
             inner = t[1]
+            if inner == ("unit",):
+                return ["if (flag(&%s.is_ok)) printf(\"S(())\"); else printf(\"N\");" % e]
             return (["if (flag(&%s.is_ok)) { printf(\"S(\");" % e] + self.print_stmts(e + ".ok", inner, adopt, retv[1] if retv else None)
                     + ["printf(\")\"); } else printf(\"N\");"])
         if k == "result":
